@@ -6,3 +6,6 @@ var (
 	stepsSetBudget = func(int64) {}
 	setHook        = func(func()) {}
 )
+
+// CoverageGet returns the statement-hit vector of the instrumented build (nil in the plain build).
+var CoverageGet = func() []uint8 { return nil }
